@@ -34,16 +34,16 @@ def calcSimple (dur : Nat → Nat → Nat) : Nat → Nat → Nat → Map → Lis
   | a, T, lu, p :: r =>
     if p.1 = a then ⟨p.1, T, p.2⟩ :: calcSimple dur a T p.2 r
     else
-      let T' := T + dur lu (u32 ((p.1 : Int) - a))
+      let T' := T + dur lu (tk ((p.1 : Int) - a))
       ⟨p.1, T', p.2⟩ :: calcSimple dur p.1 T' p.2 r
 
 /-- `TimeAt` as a fold over the raw map -/
 def timeSimple (dur : Nat → Nat → Nat) : Nat → Nat → Nat → Map → Nat → Nat
-  | a, T, lu, [], t => T + dur lu (u32 ((t : Int) - a))
+  | a, T, lu, [], t => T + dur lu (tk ((t : Int) - a))
   | a, T, lu, p :: r, t =>
-    if t ≤ p.1 then T + dur lu (u32 ((t : Int) - a))
+    if t ≤ p.1 then T + dur lu (tk ((t : Int) - a))
     else if p.1 = a then timeSimple dur a T p.2 r t
-    else timeSimple dur p.1 (T + dur lu (u32 ((p.1 : Int) - a))) p.2 r t
+    else timeSimple dur p.1 (T + dur lu (tk ((p.1 : Int) - a))) p.2 r t
 
 /-- state of the fold that belongs to the visited prefix `pre` -/
 def Inv (pre : List Tc) (a T lu : Nat) : Prop :=
@@ -121,13 +121,13 @@ theorem calcLoop_eq (dur : Nat → Nat → Nat) (post : Map) (pre : List Tc) (a 
         · intro e he; have := hi.1 e he; omega
         · simp; omega
       have hgoal : ∀ (pt pu : Nat), pt = T → pu = lu →
-          calcLoop dur (pre ++ [⟨p.1, pt + dur pu (u32 ((p.1 : Int) - a)), p.2⟩])
+          calcLoop dur (pre ++ [⟨p.1, pt + dur pu (tk ((p.1 : Int) - a)), p.2⟩])
             (List.map (fun p => ({ tick := p.1, time := 0, u := p.2 } : Tc)) r) p.1
-            (pt + dur pu (u32 ((p.1 : Int) - a))) =
-          pre ++ ⟨p.1, T + dur lu (u32 ((p.1 : Int) - a)), p.2⟩ ::
-            calcSimple dur p.1 (T + dur lu (u32 ((p.1 : Int) - a))) p.2 r := by
+            (pt + dur pu (tk ((p.1 : Int) - a))) =
+          pre ++ ⟨p.1, T + dur lu (tk ((p.1 : Int) - a)), p.2⟩ ::
+            calcSimple dur p.1 (T + dur lu (tk ((p.1 : Int) - a))) p.2 r := by
         intro pt pu h1 h2; subst h1; subst h2
-        have := ih (pre ++ [⟨p.1, pt + dur pu (u32 ((p.1 : Int) - a)), p.2⟩]) p.1 _ p.2 (hi.snoc _ _ _ hle) hs'
+        have := ih (pre ++ [⟨p.1, pt + dur pu (tk ((p.1 : Int) - a)), p.2⟩]) p.1 _ p.2 (hi.snoc _ _ _ hle) hs'
         simp only [ofMap] at this
         rw [this]; simp
       simp only [tempoAt, hlook]
@@ -140,7 +140,7 @@ theorem calcAbs_eq (dur : Nat → Nat → Nat) (m : Map) (hs : SortedFrom 0 m) :
 
 theorem timeAt_of_lookup (dur : Nat → Nat → Nat) (l pre : List Tc) (a T lu t : Nat) (hi : Inv pre a T lu)
     (hl : tempoChangeAt l ((t : Int) - 1) = pre.getLast?) :
-    timeAt dur l t = T + dur lu (u32 ((t : Int) - a)) := by
+    timeAt dur l t = T + dur lu (tk ((t : Int) - a)) := by
   simp only [timeAt, hl]
   rcases hi.cases with ⟨h0, h1, h2, h3⟩ | h0
   · simp [h0, h1, h2, h3]
@@ -176,17 +176,14 @@ theorem timeAt_eq (dur : Nat → Nat → Nat) (r : Map) (pre : List Tc) (a T lu 
           (by intro e he; have := hi'.1 e he; omega)
         rw [← this]; simp
       · simp only [hpa, if_false]
-        have hi' := hi.snoc p.1 (T + dur lu (u32 ((p.1 : Int) - a))) p.2 hle
-        have := ih (pre ++ [⟨p.1, T + dur lu (u32 ((p.1 : Int) - a)), p.2⟩]) p.1 _ p.2 hi' hs' (Or.inr (by omega))
+        have hi' := hi.snoc p.1 (T + dur lu (tk ((p.1 : Int) - a))) p.2 hle
+        have := ih (pre ++ [⟨p.1, T + dur lu (tk ((p.1 : Int) - a)), p.2⟩]) p.1 _ p.2 hi' hs' (Or.inr (by omega))
           (by intro e he; have := hi'.1 e he; omega)
         rw [← this]; simp
 
-/-- `u32` of a non-negative difference -/
-theorem u32_sub (t a : Nat) (h : a ≤ t) : u32 ((t : Int) - a) = (t - a) % 4294967296 := by
-  unfold u32; omega
-
-theorem u32_sub_small (t a : Nat) (h : a ≤ t) (h2 : t - a < 4294967296) : u32 ((t : Int) - a) = t - a := by
-  unfold u32; omega
+/-- the tick count of a non-negative difference -/
+theorem tk_sub (t a : Nat) (h : a ≤ t) : tk ((t : Int) - a) = t - a := by
+  unfold tk; omega
 
 /-- `SMF.TimeAt` after `finishTempoChanges` on a non-decreasing map, as a fold over the map -/
 theorem timeAt_finish_eq (dur : Nat → Nat → Nat) (m : Map) (hs : SortedFrom 0 m) (t : Nat) :
@@ -223,17 +220,16 @@ theorem sortTc_of_sorted (m : Map) (a : Nat) (h : SortedFrom a m) : sortTc m = m
 /-! ### accuracy hypothesis on the duration function and the domain of a query -/
 
 /-- What the proofs need of `dur u d` = `MetricTicks(q).Duration(6e7/u, d).Microseconds()`: zero ticks take no time,
-    it is monotone in the ticks, and it is within one microsecond of the exact `u·d/q` — for the `uint32` tick counts
-    the code can pass and segment durations up to the horizon `H` microseconds. -/
+    it is monotone in the ticks, and it is within one microsecond of the exact `u·d/q` for segment durations up to
+    the horizon `H` microseconds (the float64 arithmetic is only that accurate on a bounded range). -/
 structure DurOK (dur : Nat → Nat → Nat) (q H : Nat) : Prop where
   zero : ∀ u, dur u 0 = 0
-  mono : ∀ u d d', d ≤ d' → d' < 4294967296 → dur u d ≤ dur u d'
-  upper : ∀ u d, d < 4294967296 → u * d ≤ q * H → q * dur u d ≤ u * d + q
-  lower : ∀ u d, d < 4294967296 → u * d ≤ q * H → u * d ≤ q * dur u d + q
+  mono : ∀ u d d', d ≤ d' → dur u d ≤ dur u d'
+  upper : ∀ u d, u * d ≤ q * H → q * dur u d ≤ u * d + q
+  lower : ∀ u d, u * d ≤ q * H → u * d ≤ q * dur u d + q
 
-/-- one segment of `d` ticks at tempo `u` is inside the domain: the tick difference survives `uint32(...)` and the
-    exact duration does not exceed the horizon -/
-def SegOK (q H u d : Nat) : Prop := d < 4294967296 ∧ u * d ≤ q * H
+/-- one segment of `d` ticks at tempo `u` is inside the domain: its exact duration does not exceed the horizon -/
+def SegOK (q H u d : Nat) : Prop := u * d ≤ q * H
 
 /-- every segment on the way to tick `t` is inside the domain (same recursion as `exactFrom`) -/
 def DomFrom (q H : Nat) : Nat → Nat → Map → Nat → Prop
@@ -247,11 +243,11 @@ def InDomain (q H : Nat) (m : Map) (t : Nat) : Prop := DomFrom q H 0 defaultU m 
 
 theorem seg_error {dur : Nat → Nat → Nat} {q H : Nat} (hd : DurOK dur q H) (T lu t a : Nat) (hat : a ≤ t)
     (hseg : SegOK q H lu (t - a)) :
-    q * (T + dur lu (u32 ((t : Int) - a))) ≤ q * T + lu * (t - a) + q ∧
-    q * T + lu * (t - a) ≤ q * (T + dur lu (u32 ((t : Int) - a))) + q := by
-  rw [u32_sub_small t a hat hseg.1, Nat.mul_add]
-  have h1 := hd.upper lu (t - a) hseg.1 hseg.2
-  have h2 := hd.lower lu (t - a) hseg.1 hseg.2
+    q * (T + dur lu (tk ((t : Int) - a))) ≤ q * T + lu * (t - a) + q ∧
+    q * T + lu * (t - a) ≤ q * (T + dur lu (tk ((t : Int) - a))) + q := by
+  rw [tk_sub t a hat, Nat.mul_add]
+  have h1 := hd.upper lu (t - a) hseg
+  have h2 := hd.lower lu (t - a) hseg
   omega
 
 /-- error of the fold against the exact integral: one microsecond per `dur` call -/
@@ -279,7 +275,7 @@ theorem timeSimple_error {dur : Nat → Nat → Nat} {q H : Nat} (hd : DurOK dur
         simp only [if_true, Nat.sub_self, Nat.mul_zero, Nat.zero_add]
         exact ih τ T u hs' (by omega) hdom'
       · simp only [hpa, if_false]
-        have h1 := ih τ (T + dur lu (u32 ((τ : Int) - a))) u hs' (by omega) hdom'
+        have h1 := ih τ (T + dur lu (tk ((τ : Int) - a))) u hs' (by omega) hdom'
         have h2 := seg_error hd T lu τ a hle hseg
         have e1 : q * (1 + segFrom τ r t + 1) = q * (segFrom τ r t + 1) + q := by
           rw [show 1 + segFrom τ r t + 1 = (segFrom τ r t + 1) + 1 by omega, Nat.mul_add, Nat.mul_one]
@@ -300,30 +296,29 @@ theorem timeSimple_ge (dur : Nat → Nat → Nat) (r : Map) (a T lu t : Nat) : T
         exact Nat.le_trans (Nat.le_add_right _ _) (ih _ _ _)
 
 theorem seg_mono {dur : Nat → Nat → Nat} {q H : Nat} (hd : DurOK dur q H) (T lu a t t' : Nat) (hat : a ≤ t)
-    (htt : t ≤ t') (h : t' - a < 4294967296) :
-    T + dur lu (u32 ((t : Int) - a)) ≤ T + dur lu (u32 ((t' : Int) - a)) := by
-  rw [u32_sub_small t a hat (by omega), u32_sub_small t' a (by omega) h]
-  have := hd.mono lu (t - a) (t' - a) (by omega) h
+    (htt : t ≤ t') :
+    T + dur lu (tk ((t : Int) - a)) ≤ T + dur lu (tk ((t' : Int) - a)) := by
+  rw [tk_sub t a hat, tk_sub t' a (by omega)]
+  have := hd.mono lu (t - a) (t' - a) (by omega)
   omega
 
-/-- the fold is non-decreasing in the query tick -/
+/-- the fold is non-decreasing in the query tick (needs only `dur u 0 = 0` and monotonicity: no horizon) -/
 theorem timeSimple_mono {dur : Nat → Nat → Nat} {q H : Nat} (hd : DurOK dur q H) (r : Map) (a T lu t t' : Nat)
-    (hs : SortedFrom a r) (hat : a ≤ t) (htt : t ≤ t') (hdom : DomFrom q H a lu r t') :
+    (hs : SortedFrom a r) (hat : a ≤ t) (htt : t ≤ t') :
     timeSimple dur a T lu r t ≤ timeSimple dur a T lu r t' := by
   induction r generalizing a T lu with
   | nil =>
-    simp only [timeSimple, DomFrom] at hdom ⊢
-    exact seg_mono hd T lu a t t' hat htt hdom.1
+    simp only [timeSimple]
+    exact seg_mono hd T lu a t t' hat htt
   | cons p r ih =>
     obtain ⟨τ, u⟩ := p
     obtain ⟨hle, hs'⟩ := hs
-    simp only [timeSimple, DomFrom] at hdom ⊢
+    simp only [timeSimple]
     by_cases htp' : t' ≤ τ
     · have htp : t ≤ τ := by omega
-      simp only [htp', htp, if_true] at hdom ⊢
-      exact seg_mono hd T lu a t t' hat htt hdom.1
-    · simp only [htp', if_false] at hdom ⊢
-      obtain ⟨hseg, hdom'⟩ := hdom
+      simp only [htp', htp, if_true]
+      exact seg_mono hd T lu a t t' hat htt
+    · simp only [htp', if_false]
       by_cases htp : t ≤ τ
       · simp only [htp, if_true]
         by_cases hpa : τ = a
@@ -331,18 +326,18 @@ theorem timeSimple_mono {dur : Nat → Nat → Nat} {q H : Nat} (hd : DurOK dur 
           have hta : t = τ := by omega
           subst hta
           simp only [if_true, Int.sub_self]
-          have : u32 0 = 0 := by unfold u32; omega
+          have : tk 0 = 0 := by unfold tk; omega
           rw [this, hd.zero]
           exact timeSimple_ge dur r t T u t'
         · simp only [hpa, if_false]
-          exact Nat.le_trans (seg_mono hd T lu a t τ hat htp hseg.1) (timeSimple_ge dur r τ _ u t')
+          exact Nat.le_trans (seg_mono hd T lu a t τ hat htp) (timeSimple_ge dur r τ _ u t')
       · simp only [htp, if_false]
         by_cases hpa : τ = a
         · simp only [hpa, if_true]
           subst hpa
-          exact ih τ T u hs' (by omega) hdom'
+          exact ih τ T u hs' (by omega)
         · simp only [hpa, if_false]
-          exact ih τ _ u hs' (by omega) hdom'
+          exact ih τ _ u hs' (by omega)
 
 /-! ### the exact integral, tick by tick (specification) -/
 
@@ -424,19 +419,19 @@ theorem exactFrom_seg_le (a lu τ u : Nat) (r : Map) (t : Nat) (h : ¬ t ≤ τ)
   simp only [exactFrom, h, if_false]; omega
 
 theorem domFrom_of_small (q H : Nat) (r : Map) (a lu t : Nat) (hs : SortedFrom a r) (hat : a ≤ t)
-    (h32 : t - a < 4294967296) (hH : exactFrom a lu r t ≤ q * H) : DomFrom q H a lu r t := by
+    (hH : exactFrom a lu r t ≤ q * H) : DomFrom q H a lu r t := by
   induction r generalizing a lu with
-  | nil => exact ⟨h32, by simpa [exactFrom] using hH⟩
+  | nil => simpa [DomFrom, SegOK, exactFrom] using hH
   | cons p r ih =>
     obtain ⟨τ, u⟩ := p
     obtain ⟨hle, hs'⟩ := hs
     simp only [DomFrom]
     by_cases htp : t ≤ τ
     · simp only [htp, if_true]
-      exact ⟨h32, by simpa [exactFrom, htp] using hH⟩
+      simpa [SegOK, exactFrom, htp] using hH
     · simp only [htp, if_false]
       have := exactFrom_seg_le a lu τ u r t htp
-      exact ⟨⟨by omega, by omega⟩, ih τ u hs' (by omega) (by omega) (by omega)⟩
+      exact ⟨Nat.le_trans this.1 hH, ih τ u hs' (by omega) (Nat.le_trans this.2 hH)⟩
 
 /-! ### the rational reference `durRef` meets `DurOK` (for every horizon) -/
 
@@ -462,13 +457,13 @@ theorem durRef_ok (q H : Nat) (hq : 0 < q) : DurOK (durRef q) q H := by
     have h6 : 1000 * u * d = 1000 * (u * d) := Nat.mul_assoc _ _ _
     rw [h6] at h1 h4 h5 h2 h3 ⊢
     omega
-  refine ⟨?_, ?_, fun u d _ _ => (key u d).1, fun u d _ _ => (key u d).2⟩
+  refine ⟨?_, ?_, fun u d _ => (key u d).1, fun u d _ => (key u d).2⟩
   · intro u
     unfold durRef durNsRef roundDiv
     simp only [Nat.mul_zero, Nat.zero_add]
     have : q / (2 * q) = 0 := Nat.div_eq_of_lt (by omega)
     rw [this]
-  · intro u d d' hdd _
+  · intro u d d' hdd
     unfold durRef durNsRef roundDiv
     apply Nat.div_le_div_right
     apply Nat.div_le_div_right
